@@ -3,9 +3,10 @@
 #  (1) patch applies and the unedited test suite passes with it, (2) the demonstration fails with it,
 #  (3) the demonstration passes without it. Confirmed ones are copied to /verif/seeded/Cxx-n/ with the
 #  observed results added to meta.json ("confirmed": {...}).
-W=/tmp/cs/repo
-T=/tmp/cs/target
-mkdir -p /tmp/cs
+CS=/tmp/cs$CS_SLOT
+W=$CS/repo
+T=$CS/target
+mkdir -p $CS
 [ -d $W ] || git -C /repo worktree add -q --detach $W HEAD
 for p in "$@"; do
  for d in /tmp/sw/out/$p/*/; do
@@ -13,15 +14,15 @@ for p in "$@"; do
   [ -f $d/patch.diff ] || continue
   [ -f /verif/seeded/$id/meta.json ] && continue
   git -C $W checkout -q --detach $(git -C /repo rev-parse HEAD); git -C $W checkout -q -- .; git -C $W clean -fdq
-  if ! git -C $W apply --check $d/patch.diff 2>/dev/null; then echo "$id: patch does not apply to current HEAD" >> /tmp/cs/results.txt; continue; fi
+  if ! git -C $W apply --check $d/patch.diff 2>/dev/null; then echo "$id: patch does not apply to current HEAD" >> $CS/results.txt; continue; fi
   cp $d/demo.rs $W/tests/seed_demo.rs
-  (cd $W && CARGO_TARGET_DIR=$T cargo test --offline --test seed_demo > /tmp/cs/$id-clean.log 2>&1); clean_rc=$?
+  (cd $W && CARGO_TARGET_DIR=$T cargo test --offline --test seed_demo > $CS/$id-clean.log 2>&1); clean_rc=$?
   git -C $W apply $d/patch.diff
-  (cd $W && CARGO_TARGET_DIR=$T cargo test --offline --test seed_demo > /tmp/cs/$id-patched.log 2>&1); patched_rc=$?
+  (cd $W && CARGO_TARGET_DIR=$T cargo test --offline --test seed_demo > $CS/$id-patched.log 2>&1); patched_rc=$?
   rm -f $W/tests/seed_demo.rs
-  (cd $W && CARGO_TARGET_DIR=$T cargo test --workspace --no-fail-fast --offline > /tmp/cs/$id-suite.log 2>&1); suite_rc=$?
-  passed=$(grep -E "^test result" /tmp/cs/$id-suite.log | awk '{p+=$4; f+=$6} END {print p" passed "f" failed"}')
-  echo "$id: demo clean rc=$clean_rc, demo patched rc=$patched_rc, suite rc=$suite_rc ($passed)" >> /tmp/cs/results.txt
+  (cd $W && CARGO_TARGET_DIR=$T cargo test --workspace --no-fail-fast --offline > $CS/$id-suite.log 2>&1); suite_rc=$?
+  passed=$(grep -E "^test result" $CS/$id-suite.log | awk '{p+=$4; f+=$6} END {print p" passed "f" failed"}')
+  echo "$id: demo clean rc=$clean_rc, demo patched rc=$patched_rc, suite rc=$suite_rc ($passed)" >> $CS/results.txt
   if [ $clean_rc -eq 0 ] && [ $patched_rc -ne 0 ] && [ $suite_rc -eq 0 ]; then
     mkdir -p /verif/seeded/$id
     cp $d/patch.diff $d/demo.rs /verif/seeded/$id/
@@ -36,4 +37,4 @@ PY
   git -C $W checkout -q -- .
  done
 done
-echo "batch done: $*" >> /tmp/cs/results.txt
+echo "batch done: $*" >> $CS/results.txt
